@@ -9,6 +9,26 @@ CHECKS = {
    text="Every prior history up to the depth bound over {fit, partial_fit, add_arm, remove_arm, warm_start, predict}, for every policy combination, is followed by fit(D) for every D of the alphabet and every one-step continuation; the refitted bandit must be observationally equal to a fresh one fit on D from the same stream position. Exhaustive within the stated alphabet, executed on the implementation itself.",
    note="alphabet: 2-3 arms, 5 data sets D, depth 2 (quick) / 3 (thorough); LinTS compared on expectations at alpha=1e-9 where generator identities differ; scikit-learn trusted",
    ref="DESIGN.md section 7 (C07)"),
+ "C08": dict(
+   technique="explicit-state BFS over the real bandit from the unfitted state (arm changes x training calls, canonical-digest de-duplication); shape/membership/order invariant evaluated in every fitted state for 0/1/2/3 query rows",
+   text="All histories up to the depth bound over {fit, partial_fit, add_arm, remove_arm incl. re-adding, warm_start} from the unfitted bandit are executed for every policy combination, three label types and n_jobs 1/2; in every reached fitted state the outputs of predict and predict_expectations are checked against the current arm list. Exhaustive within the alphabet; states de-duplicated by a digest of the complete object graph.",
+   note="depth 3 (quick) / 4 (thorough); n_jobs=2 runs through the joblib model of mcx/sched.py (isolated pickled workers) whose conformance with real joblib is checked in C05; KNearest states with fewer rows than k are out of domain",
+   ref="DESIGN.md section 7 (C08)"),
+ "C09": dict(
+   technique="explicit-state BFS (same search as C08) extended with tie and near-tie training sets; per-state differential check predict vs arg-max of predict_expectations from the same stream position",
+   text="In every fitted state of the bounded search, for every query size, predict and predict_expectations are executed on two deep copies (same model, same stream position) and compared row by row against the first-maximum rule; exact ties (unobserved arms, zero rewards) and near ties (means differing by 2^-30, both arm orders) are part of the alphabet.",
+   note="depth 3/4; TreeBandit+EpsilonGreedy(eps>0) excluded as in the statement; rows whose expectations contain NaN only require a current arm",
+   ref="DESIGN.md section 7 (C09)"),
+ "C10": dict(
+   technique="explicit-state BFS over the real bandit; in every fitted state: query programs x continuations enumerated exhaustively, queried copy vs never-queried twin after generator positions are aligned by object-graph path",
+   text="For every reachable state within the bound, every query program of the alphabet and every continuation up to the continuation depth, the bandit that answered queries and its untouched twin must give identical outputs afterwards (n_jobs=1, and n_jobs=2 with thread and process semantics through the joblib model).",
+   note="BFS depth 2/3, continuation depth 1/2; where queries re-wire generator objects (not observable by itself) only randomness-free outputs are compared and the rest is counted as skipped",
+   ref="DESIGN.md section 7 (C10)"),
+ "C19": dict(
+   technique="explicit-state BFS over the real bandit (unfitted states included); per state: copy methods x continuations enumerated exhaustively, original vs copy differential oracle, plus restore in a fresh interpreter with another hash seed",
+   text="Every state reachable within the bound is deep-copied, pickled with protocols 2..5 and restored (protocol 4 also in a fresh interpreter); every continuation up to the continuation depth must give identical outputs on original and copy, and training/querying the copy must leave the original unchanged.",
+   note="BFS depth 2/3, continuation depth 1/2; quick tier uses deepcopy, protocol 5 and the fresh-interpreter protocol-4 restore; binarizers are module-level functions",
+   ref="DESIGN.md section 7 (C19)"),
 }
 NOT_APPLICABLE = []
 
